@@ -18,7 +18,7 @@ SPEC = {
     "C04": dict(vals=[VAL.c04_annotations], clauses=["C04/annotations-travel-with-their-byte", "C04/symbolic-expressions-travel-with-their-byte",
                                                       "C04/patch-expression-at-its-offset-with-module-symbol", "C04/no-annotation-on-removed-nodes",
                                                       "C04/nothing-points-outside-its-element", "C04/no-duplicate-symbols"],
-                space=dict(anns=("block", "interval", "interval-rev"), patches=["plain", "symexpr", "jmpL2", "two"])),
+                space=dict(anns=("block", "interval", "interval-rev"), patches=["plain", "symexpr", "jmpL2", "two", "symexprimm", "symexprimm4", "symexpradd"])),
     "C05": dict(vals=[VAL.c05_closed], clauses=["C05/cfg-endpoints-in-module", "C05/symbol-referents-in-module", "C05/aux-data-nodes-in-module",
                                                  "C05/blocks-inside-their-interval", "C05/every-block-has-an-address",
                                                  "C05/zero-sized-blocks-only-in-documented-cases", "C05/protobuf-round-trip-unchanged", "C05/serialisable"],
